@@ -152,11 +152,26 @@ def verifyInput (flags : Nat) (tx : Tx) (spent : List TxOut) (i : Nat) (witnessW
 
 def secp : GroupOps EC.Point := EC.ops EC.secp256k1
 
-/-- `CPubKey` → point on secp256k1: the 33 / 65-byte SEC forms (C12's `point_from_octets`; hybrid forms refused) -/
-def secpParsePub (k : Bytes) : Option EC.Point :=
+/-- `pub_keyinfo_from_key` / `point_from_octets(key)`: the 33 / 65-byte SEC forms 02 03 04 (C12's `point_from_octets`;
+    hybrid forms refused) -- what classifies a script as p2ms -/
+def secpParsePubStrict (k : Bytes) : Option EC.Point :=
   match Taproot.pointFromOctets secp k with
   | .ok P => some P
   | .error _ => none
+
+/-- `CPubKey` → point on secp256k1 as the SIGNATURE CHECKER reads it (`engine/script.py: point_from_octets(pub_key,
+    hybrid=True)`, Core's `secp256k1_ec_pubkey_parse`): the strict forms, and the hybrid 65-byte forms 06 / 07, which carry
+    both coordinates like 04 and must repeat the parity of y in the prefix (06 even, 07 odd).  Refusing them is
+    STRICTENC's business (`checkPubKeyEncoding`), not the parser's. -/
+def secpParsePub (k : Bytes) : Option EC.Point :=
+  match k with
+  | pre :: rest =>
+    if pre = 6 ∨ pre = 7 then
+      match secpParsePubStrict (4 :: rest) with
+      | some P => if (secp.y P % 2).toNat = pre.toNat - 6 then some P else none
+      | none => none
+    else secpParsePubStrict k
+  | [] => none
 
 def bip340Params : Schnorr.Params :=
   { pSize := 32, nSize := 32, nlen := 256, hfLen := 32, TH := taggedHash }
